@@ -23,6 +23,7 @@ KF_LUA_CHARP = "lua-char-pointer-argument"
 KF_C_VECTOR = "c-only-vector-argument"
 KF_PYVECSTR = "python-vector-of-strings-argument"
 KF_LUA_CPPIF = "lua-ignores-cpp-if"
+KF_PY_SAMENAME = "python-same-class-name-in-two-namespaces"
 FINDING_LIBS = [
     # (key, library, header name, header text, options, file expected not to compile)
     (KF_LUA_CHARP, {"library": "fl1", "cxx_header": "fl1.hpp", "declarations": [{"decl": "int cstr(const char *t)"}]},
@@ -37,6 +38,11 @@ FINDING_LIBS = [
                     "declarations": [{"decl": "void upd()"}, {"decl": "void upd(int flag)", "cpp_if": "ifdef USE_FLAG"}]},
      "fl4.hpp", "#pragma once\nvoid upd();\n#ifdef USE_FLAG\nvoid upd(int flag);\n#endif\n",
      dict(wrap_c=False, wrap_fortran=False, wrap_python=False, wrap_lua=True), "luafl4module.cpp"),
+    (KF_PY_SAMENAME, {"library": "fl5", "cxx_header": "fl5.hpp",
+                      "declarations": [{"decl": "namespace alpha", "declarations": [{"decl": "class Item", "declarations": [{"decl": "Item()"}, {"decl": "int get() const"}]}]},
+                                       {"decl": "namespace beta", "declarations": [{"decl": "class Item", "declarations": [{"decl": "Item()"}, {"decl": "int get() const"}]}]}]},
+     "fl5.hpp", "#pragma once\nnamespace alpha { class Item { public: Item(); int get() const; }; }\nnamespace beta { class Item { public: Item(); int get() const; }; }\n",
+     dict(wrap_c=True, wrap_fortran=True, wrap_python=True, wrap_lua=False), None),
 ]
 
 GEN = {
@@ -52,6 +58,10 @@ GEN = {
         {"decl": "void over(int a)"}, {"decl": "void over(double a)"}, {"decl": "void over(const std::string &a, int b = 1)"},
         {"decl": "class Thing", "declarations": [{"decl": "Thing()"}, {"decl": "Thing(int n, int fill = 3)"}, {"decl": "~Thing()"},
                                                  {"decl": "double val(int i) const"}, {"decl": "void set(int v, bool flag = true)"},
+                                                 # const methods with output arguments before / after an input one (interface prefixes)
+                                                 {"decl": "int stats(int *count +intent(out), int scale) const", "options": {"wrap_lua": False}},
+                                                 {"decl": "int last(int scale, int *count +intent(out)) const", "options": {"wrap_lua": False}},
+                                                 {"decl": "int tally(int *total +intent(inout), int step) const", "options": {"wrap_lua": False}},
                                                  {"decl": "const std::string &label() const"}]},
         {"decl": "enum Mode { ONE, TWO = 5 }"},
         {"decl": "Mode mode(Mode m)"},
@@ -103,7 +113,8 @@ std::string name(const std::string &s, const char *t, int n = 2);
 std::string name2(const std::string &s, int n = 2);
 void outstr(std::string &o, char *buf);
 void over(int a); void over(double a); void over(const std::string &a, int b = 1);
-class Thing { public: Thing(); Thing(int n, int fill = 3); ~Thing(); double val(int i) const; void set(int v, bool flag = true); const std::string &label() const; };
+class Thing { public: Thing(); Thing(int n, int fill = 3); ~Thing(); double val(int i) const; void set(int v, bool flag = true); const std::string &label() const;
+  int stats(int *count, int scale) const; int last(int scale, int *count) const; int tally(int *total, int step) const; };
 enum Mode { ONE, TWO = 5 };
 Mode mode(Mode m);
 namespace inner { int deep(int x); }
@@ -368,7 +379,7 @@ def run(ctx):
         fails, done, yp = build_and_compile(ctx, "finding_" + key, lib, hn, ht, opts)
         ctx.count(1, ("finding", key))
         for f in fails:
-            if f["file"] == badfile and ctx.is_known(key):
+            if (f["file"] == badfile or (badfile is None and f["file"].startswith("py"))) and ctx.is_known(key):
                 ctx.known_finding(key, "")
             else:
                 ctx.violation("failing-input", {"what": "a generated file does not compile or link", "input": {"library_yaml": open(yp).read(), "file": f["file"]},
